@@ -200,12 +200,14 @@ Definition label_safe2 (s : st) (l : label) : Prop := match l with Feed _ _ _ p 
 
 Lemma step_conc retries s l : CInv s -> label_safe2 s l -> CInv (step retries s l) /\ adv s (step retries s l).
 Proof.
-  intros I S. destruct l as [c|c pid pname th|c cname spch p answers|cs|c spchs].
+  intros I S. destruct l as [c|c pid pname th|c cname spch p answers|cs|c spchs|ns nt].
   - split; [apply step_CInv; [exact I|exact Logic.I]|]. unfold step. eapply adv_trans; [|apply rel_adv, rel_fire].
     destruct (zmem _ _); [apply adv_refl|]. destruct (zlookup _ _); [apply adv_refl|]. destruct (pairing c) as [shards|]; [|apply adv_refl].
-    match goal with |- adv s (fold_left _ shards ?s1) => assert (E : adv s s1) by (apply rel_adv, rel_ext; reflexivity); revert E; generalize s1 end.
-    induction shards as [|sh r IH]; intros s1 E; cbn [fold_left]; [exact E|]. apply IH. eapply adv_trans; [exact E|].
-    intros ch. destruct (add_shard_clock s1 c (fresh_ref (heap s)) sh) as [A _]. destruct (A ch) as [-> _]. lia.
+    match goal with |- adv s (settle (fold_left ?f shards ?s1)) =>
+      assert (E : adv s s1) by (apply rel_adv, rel_ext; reflexivity);
+      assert (K : same_clk s1 (settle (fold_left f shards s1))) by (eapply same_clk_trans; [apply (fold_same_clk f); intros s0 sh; apply add_shard_same_clk|apply settle_same_clk]);
+      eapply adv_trans; [exact E|] end.
+    intros ch. destruct K as [A _]. destruct (A ch) as [-> _]. lia.
   - split; [apply step_CInv; [exact I|exact Logic.I]|]. unfold step. eapply adv_trans; [|apply rel_adv, rel_fire].
     apply rel_adv, rel_ext; repeat dm; reflexivity.
   - cbn [label_safe2] in S. rewrite step_feed_eq. pose proof (feed_content_spec retries s c cname spch p answers S) as F.
@@ -215,6 +217,8 @@ Proof.
       split; [apply (CInv_rel _ _ (rel_fire _)); exact I'|]. eapply adv_trans; [apply rel_adv; exact R|]. eapply adv_trans; [exact A'|apply rel_adv, rel_fire].
   - split; [apply step_CInv; [exact I|exact Logic.I]|]. unfold step. eapply adv_trans; [|apply rel_adv, rel_fire]. apply rel_adv, rel_ext; reflexivity.
   - split; [apply step_CInv; [exact I|exact Logic.I]|]. unfold step. eapply adv_trans; [|apply rel_adv, rel_fire]. apply rel_adv, rel_ext; reflexivity.
+  - split; [apply step_CInv; [exact I|exact Logic.I]|]. unfold step. eapply adv_trans; [|apply rel_adv, rel_fire].
+    destruct (handlers s); [|apply adv_refl]. destruct (wsh s); [|apply adv_refl]. destruct (Manager.g_hs (mg s)); [|apply adv_refl]. apply rel_adv, rel_ext; reflexivity.
 Qed.
 
 (* ---------- packs parked at a scheduling point ---------- *)
